@@ -333,10 +333,7 @@ theorem substituteDefinedVariables_FVLe (F : Formula) : FVLe (substituteDefinedV
   · rename_i vs f
     obtain ⟨h1, h2⟩ := FV_quantify hv
     refine ⟨?_, h2⟩
-    suffices hs : ∀ (l : List Var) (b : Formula), FVLe (l.foldl (fun (b : Formula) v =>
-        match findDefinition v b with
-        | some d => b.subst v d
-        | none => b) b) b from hs _ f v h1
+    suffices hs : ∀ (l : List Var) (b : Formula), FVLe (l.foldl definedStep b) b from hs _ f v h1
     intro l
     induction l with
     | nil => intro b; exact FVLe.refl b
@@ -345,8 +342,12 @@ theorem substituteDefinedVariables_FVLe (F : Formula) : FVLe (substituteDefinedV
       simp only [List.foldl_cons]
       refine (ih _).trans ?_
       cases hd : findDefinition x b with
-      | none => exact FVLe.refl b
+      | none =>
+        have e : definedStep b x = b := by simp only [definedStep, hd]
+        rw [e]; exact FVLe.refl b
       | some d =>
+        have e : definedStep b x = b.subst x d := by simp only [definedStep, hd]
+        rw [e]
         intro u hu
         obtain ⟨_, hcompat, _⟩ := findDefinition_sound x b d hd
         rcases subst_FV b x d hcompat u hu with h | h
